@@ -19,6 +19,10 @@ reduction tree rayon may choose, **every** batch size ≥ 1 and every list of fi
 atomics, rayon and `Scorer::score` refine those machines is the modelling assumption, exercised
 (not proved) by the `search` / `batch` correspondence ops.
 
+The MS1 side (what reaches LFQ) is covered by the accumulator machine: `accumulate_any_split`,
+`batch_run_ms1_irrelevant`, with `shortcut_reduce_loses_ms1` / `shortcut_reduce_keeps_msn` showing what the
+seeded `msn.is_empty()` shortcut does, and by the MS1 / TMT sections of the `batch` op's reply.
+
 The second sentence of the property (*downstream statistics agree to within floating-point summation
 error*) is only touched by `par_sum_any_tree` (exact sums are order-free) and by the `downstream` op,
 which found a defect (`Kde::pdf` summed in parallel, amplified by the LDA) since repaired in /repo
@@ -231,6 +235,32 @@ theorem mem_idsOf {h : List (Nat × Nat)} {t i : Nat} (hi : i ∈ idsOf h t) : (
   simp at ha
   subst ha
   exact hm
+
+/-! ### the scan accumulator -/
+
+theorem foldOp_foldl {σ : Type} (isMs1 : σ → Bool) (a : Acc σ) (xs : List σ) :
+    xs.foldl (Acc.foldOp isMs1) a =
+      { ms1 := a.ms1 ++ xs.filter isMs1, msn := a.msn ++ xs.filter (fun x => !isMs1 x) } := by
+  induction xs generalizing a with
+  | nil => simp
+  | cons x xs ih =>
+    rw [List.foldl_cons, ih]
+    by_cases hx : isMs1 x <;> simp [Acc.foldOp, hx]
+
+theorem ms1Of_merge {μ : Type} (a b : List μ) : (ms1Of a).merge (ms1Of b) = some (ms1Of (a ++ b)) := by
+  cases a <;> cases b <;> simp [ms1Of, MS1.merge]
+
+/-- the `SageResults` fold over results whose MS1 container was made by `ms1Of` never panics and
+    concatenates both components in order -/
+theorem reduceSeq_ms1Of {φ σ κ : Type} (F : κ → List φ) (M : κ → List σ) (L : List κ) :
+    reduceSeq (L.map (fun x => ({ features := F x, ms1 := ms1Of (M x) } : Results φ Unit σ)))
+      = some { features := L.flatMap F, ms1 := ms1Of (L.flatMap M) } := by
+  unfold reduceSeq
+  induction L using List.reverseRecOn with
+  | nil => rfl
+  | append_singleton l x ih =>
+    rw [List.map_append, List.foldl_append, ih]
+    simp [combineO, combine, ms1Of_merge]
 
 /-! ## property theorems -/
 
@@ -552,5 +582,105 @@ theorem model_meets_id_clause {σ φ : Type} (score : σ → List φ) (sched : L
   (allDistinct_iff_nodup _).mpr (search_ids_unique score {} (by simp) (by simp) sched spectra)
 
 example : allDistinct [3, 1, 2] = true ∧ allDistinct [3, 1, 3] = false := by decide
+
+/-- **C11.seq_accumulate_spec** — the sequential accumulator puts exactly the MS1 scans into `ms1` and
+the others into `msn`, both in input order. -/
+theorem seq_accumulate_spec {σ : Type} (isMs1 : σ → Bool) (xs : List σ) :
+    seqAccumulate isMs1 xs = { ms1 := xs.filter isMs1, msn := xs.filter (fun x => !isMs1 x) } := by
+  unfold seqAccumulate
+  rw [foldOp_foldl]
+  simp
+
+example : seqAccumulate (· == 1) [1, 2, 1, 1, 3, 2] = { ms1 := [1, 1, 1], msn := [2, 3, 2] } := by decide
+
+/-- **C11.accumulate_any_split** — `RawSpectrumAccumulator::from_par_iter` (fold per piece, `reduce`
+up the tree) equals the sequential accumulator for EVERY way rayon may split the scan sequence (any
+thread count, any stealing, empty pieces included): `ms1` and `msn` are the order-preserving
+concatenations, no scan is lost or duplicated. -/
+theorem accumulate_any_split {σ : Type} (isMs1 : σ → Bool) (t : Split σ) :
+    parAccumulate isMs1 t = seqAccumulate isMs1 t.items := by
+  rw [seq_accumulate_spec]
+  unfold parAccumulate
+  induction t with
+  | leaf xs => simp [parAccumulateWith, Split.items, foldOp_foldl]
+  | node l r ihl ihr => simp [parAccumulateWith, Split.items, ihl, ihr, Acc.reduce]
+
+/-- the levels `1111 2212 2122 1222` in four pieces of four -/
+example : parAccumulate (· == 1)
+    (.node (.node (.leaf [1, 1, 1, 1]) (.leaf [2, 2, 1, 2])) (.node (.leaf [2, 1, 2, 2]) (.leaf [1, 2, 2, 2])))
+    = { ms1 := [1, 1, 1, 1, 1, 1, 1], msn := [2, 2, 2, 2, 2, 2, 2, 2, 2] } := by decide
+
+/-- **C11.shortcut_reduce_loses_ms1** — with the shortcut `if self.msn.is_empty() { return other; }`
+in front of `reduce` (the seeded change C11-H) a left piece holding only MS1 scans is dropped: on the
+levels `1111 2212 2122 1222` split in four pieces, 3 of the 7 MS1 scans survive; split in one piece,
+all 7 do.  So `accumulate_any_split` is a theorem about `reduce` looking at BOTH components. -/
+theorem shortcut_reduce_loses_ms1 :
+    ∃ t t' : Split Nat, t.items = t'.items ∧
+      (parAccumulateWith Acc.reduceShortcut (· == 1) t).ms1 ≠ (parAccumulateWith Acc.reduceShortcut (· == 1) t').ms1 ∧
+      (parAccumulateWith Acc.reduceShortcut (· == 1) t).ms1.length = 3 ∧
+      (parAccumulateWith Acc.reduceShortcut (· == 1) t').ms1.length = 7 := by
+  refine ⟨.node (.node (.leaf [1, 1, 1, 1]) (.leaf [2, 2, 1, 2])) (.node (.leaf [2, 1, 2, 2]) (.leaf [1, 2, 2, 2])),
+    .leaf [1, 1, 1, 1, 2, 2, 1, 2, 2, 1, 2, 2, 1, 2, 2, 2], ?_⟩
+  decide
+
+/-- **C11.shortcut_reduce_keeps_msn** — …while the MSn scans (hence the PSMs) are unaffected by the
+shortcut for every split: this is why only a check that looks at the MS1 side can see it. -/
+theorem shortcut_reduce_keeps_msn {σ : Type} (isMs1 : σ → Bool) (t : Split σ) :
+    (parAccumulateWith Acc.reduceShortcut isMs1 t).msn = (seqAccumulate isMs1 t.items).msn := by
+  rw [seq_accumulate_spec]
+  show _ = t.items.filter (fun x => !isMs1 x)
+  induction t with
+  | leaf xs => simp [parAccumulateWith, Split.items, foldOp_foldl]
+  | node l r ihl ihr =>
+    simp only [parAccumulateWith, Split.items, List.filter_append]
+    generalize parAccumulateWith Acc.reduceShortcut isMs1 l = A at ihl ⊢
+    generalize parAccumulateWith Acc.reduceShortcut isMs1 r = B at ihr ⊢
+    unfold Acc.reduceShortcut
+    split
+    · rename_i h
+      rw [ihr, ← ihl, List.isEmpty_iff.mp h]
+      rfl
+    · simp only [Acc.reduce, ihl, ihr]
+
+example : (parAccumulateWith Acc.reduceShortcut (· == 1) (.node (.leaf [1, 1]) (.leaf [2, 1, 2])))
+    = { ms1 := [1], msn := [2, 2] } := by decide
+
+/-- **C11.batch_run_ms1_irrelevant** — the whole pipeline with the MS1 side kept: for EVERY batch size
+≥ 1 and EVERY splitting of each chunk's scan sequence, `batch_files` returns the PSMs of all MSn scans
+of all files in input order and carries exactly the MS1 scans of all files in input order (each file
+read under its global position); it never panics. -/
+theorem batch_run_ms1_irrelevant {β σ φ : Type} (read : Nat → β → List σ) (isMs1 : σ → Bool)
+    (score : σ → List φ) (splitOf : List σ → Split σ) (hsplit : ∀ l, (splitOf l).items = l)
+    (bs : Nat) (h : 0 < bs) (files : List β) :
+    batchRunMs1 read isMs1 score splitOf bs files =
+      some { features := (((files.zipIdx).flatMap (fun (f, g) => read g f)).filter (fun x => !isMs1 x)).flatMap score,
+             ms1 := ms1Of (((files.zipIdx).flatMap (fun (f, g) => read g f)).filter isMs1) } := by
+  unfold batchRunMs1
+  simp only [accumulate_any_split, hsplit, seq_accumulate_spec]
+  have key := reduceSeq_ms1Of (φ := φ) (σ := σ)
+    (fun (x : List β × Nat) => (((x.1.zipIdx).flatMap (fun (f, i) => read (x.2 * bs + i) f)).filter (fun y => !isMs1 y)).flatMap score)
+    (fun (x : List β × Nat) => ((x.1.zipIdx).flatMap (fun (f, i) => read (x.2 * bs + i) f)).filter isMs1)
+    (chunks bs files.length files).zipIdx
+  rw [key]
+  -- all scans, chunk by chunk, are all scans file by file
+  have hb := batching_irrelevant (fun g f => read g f) bs h files
+  unfold batchFiles at hb
+  have hall : ((chunks bs files.length files).zipIdx).flatMap
+      (fun (x : List β × Nat) => (x.1.zipIdx).flatMap (fun (f, i) => read (x.2 * bs + i) f))
+      = (files.zipIdx).flatMap (fun (f, g) => read g f) := by
+    have := congrArg List.flatten hb
+    simpa [List.flatMap_def, List.flatten_flatten, List.map_flatten, List.map_map, Function.comp_def] using this
+  have hf : ∀ (p : σ → Bool), ((chunks bs files.length files).zipIdx).flatMap
+      (fun (x : List β × Nat) => ((x.1.zipIdx).flatMap (fun (f, i) => read (x.2 * bs + i) f)).filter p)
+      = ((files.zipIdx).flatMap (fun (f, g) => read g f)).filter p := by
+    intro p
+    rw [← hall, List.filter_flatMap]
+  congr 2
+  · rw [← hf (fun x => !isMs1 x), List.flatMap_assoc]
+  · rw [← hf isMs1]
+
+example : batchRunMs1 (fun g (f : List Nat) => f.map (fun l => (g, l))) (fun s => s.2 == 1) (fun s => [s])
+      (fun l => .node (.leaf (l.take 2)) (.leaf (l.drop 2))) 2 [[1, 1, 2], [2, 1], [1]]
+    = some { features := [(0, 2), (1, 2)], ms1 := .noMobility [(0, 1), (0, 1), (1, 1), (2, 1)] } := by decide
 
 end Sage.C11
